@@ -4,13 +4,15 @@ Drives the real LanguageServer decorators (server.feature / server.command / ser
 $VERIF_REPO on sequences of decorated definitions; after EVERY call that is actually made it
 snapshots the registry (keys of features / commands / feature_options, which user function each
 registered callable ends up calling, coroutine?, thread marker, server injected?), the dispatch of
-probe messages through the real protocol (_get_handler, _handle_notification, workspace/executeCommand
+probe messages through the real protocol (handle_message with generic notifications / workspace/executeCommand
+requests, and the private handler lookup located by harness/priv.py;
 with a duck-typed pool) and the `initialize` result (real lsp_initialize, unstructured to JSON).
 The same sequences go through Model/Features.v (M) and Spec/FeaturesSpec.v (S) via bin/c19_driver.
 
 `shapes_cases()` (bottom of the file) is the registration-shape product used by C14."""
 import hashlib, itertools, json, os, sys
 import core
+import priv
 
 # ----------------------------------------------------------------------------- vocabulary
 # fixed name table shared by every case (index = token in the driver protocol)
@@ -127,7 +129,7 @@ class _Impl:
         self.caps_of = {}      # registry tokens -> caps hash (functional dependency check)
         impl = self
 
-        class Pool:            # duck-typed executor assigned to server._thread_pool
+        class Pool:            # duck-typed executor installed as the server's pool (priv.set_thread_pool)
             def submit(self, fn, *a, **kw):
                 import concurrent.futures as cf
                 fut = cf.Future()
@@ -268,17 +270,20 @@ class _Impl:
         found = []
         cmds = srv.protocol.fm.commands
         log.clear()
+        from pygls.protocol import JsonRPCNotification, JsonRPCRequestMessage
+        get_handler = priv.get_handler(proto)          # (located outside the observed calls)
 
         async def go():
             for j, i in enumerate(PROBE_F):
                 name = TABLE[i]
                 try:
-                    proto._get_handler(name)
+                    get_handler(name)
                     found.append(1)
                 except Exception:       # MethodNotFound (a None method name raises TypeError instead)
                     found.append(0)
                 try:
-                    proto._handle_notification(name, j)
+                    # a notification `name` with params j, as the read loop hands it over
+                    proto.handle_message(JsonRPCNotification(method=name, jsonrpc="2.0", params=j))
                 except Exception:
                     pass
             for j, i in enumerate(PROBE_C):
@@ -288,8 +293,9 @@ class _Impl:
                 if name not in cmds:
                     continue
                 try:
-                    proto._handle_request(1, "workspace/executeCommand",
-                                          t.ExecuteCommandParams(command=name, arguments=nf + j))
+                    proto.handle_message(JsonRPCRequestMessage(
+                        id=1, method="workspace/executeCommand", jsonrpc="2.0",
+                        params=t.ExecuteCommandParams(command=name, arguments=nf + j)))
                 except Exception:
                     pass
             await aio.sleep(0)
@@ -318,7 +324,7 @@ class _Impl:
 
     def new_server(self):
         srv = self.LS("c19", "1", converter_factory=lambda: self.conv)
-        srv._thread_pool = self.pool
+        priv.set_thread_pool(srv, self.pool)
         srv.protocol.writer = self.writer
         self.srvbox[0] = srv
         return srv
@@ -689,6 +695,7 @@ def _hashable(k):
         return False
 
 
+@priv.in_worker
 def _worker(args):
     """runs a chunk of cases in a child process"""
     cases, quiet = args
@@ -837,7 +844,9 @@ class C19(core.Property):
                     "extraction with ExtrOcamlBasic only + ocaml/c19_driver.ml + conv_io/conv_n",
                     "harness/c19.py (generators, snapshots, the hand-written oracle table for the options check)",
                     "modelled not verified: str.strip/isspace, dict with str/None keys, inspect.signature / "
-                    "get_type_hints (abstract signature), lsprotocol/cattrs type check (oracle bit)"]
+                    "get_type_hints (abstract signature), lsprotocol/cattrs type check (oracle bit)",
+                    priv.trusted(["protocol.get_handler", "server.thread_pool"])]
+    private = ["protocol.get_handler", "server.thread_pool"]
     assumptions = ["function objects are identities with mutable attributes and may be offered any number of "
                    "times; decorators may be created early, applied late, more than once or never",
                    "the verdict of the options type check is a function of (method, options object) alone: it "
@@ -916,7 +925,7 @@ class C19(core.Property):
             nchunks = nproc * 8 if len(heavy) >= 40 else 1
             chunks = [heavy[j::nchunks] for j in range(nchunks)]
             with ctx.Pool(nproc) as pool:
-                res = pool.map(_worker, [([cases[i] for i in ch], True) for ch in chunks], chunksize=1)
+                res = priv.collect(pool.map(_worker, [([cases[i] for i in ch], True) for ch in chunks], chunksize=1))
             for ch, rs in zip(chunks, res):
                 for i, r in zip(ch, rs):
                     out[i] = r
